@@ -9,8 +9,8 @@ Full-strength goal (kept visible):
 What is proved: the round trip per location and shape for *both* flavours (code / specification) under the
 explicit `Encodable` side conditions; `validateParameter = validateSpec` is NOT a theorem of the pinned code:
 it fails inside four decidable exclusion classes, each with a kernel-checked witness below
-(CookieExplode #31, EnumGoType #42, NonDecimalInt, AddlShadow); outside them the two flavours agree
-layer by layer (`parsePrim_eq_specPrim_partial`, `visitPS_impl_eq_spec_partial`, `cookieArr_flavour_partial`, `makeObject_shadow_partial`).
+(CookieExplode #31, EnumGoType #42, AddlShadow, QueryObjAbsent); outside them the two flavours agree
+layer by layer (`parsePrim_eq_specPrim` — full strength since the repair of F-C05-3 —, `visitPS_impl_eq_spec_partial`, `cookieArr_flavour_partial`, `makeObject_shadow_partial`).
 -/
 import KinModel.Style
 import KinModel.Lemmas.C05Str
@@ -24,12 +24,12 @@ namespace KinModel.Style
 /-- integer text round trip through the model of strconv.ParseInt(·, 0, 64) -/
 theorem parsePrim_integer_showInt (i : Int) (hlo : -(2 ^ 63 : Int) ≤ i) (hhi : i < (2 ^ 63 : Int)) :
     parsePrim .integer (showInt i) = .val (.int i) := by
-  have h := parseInt0_showInt 64 i (by simpa using hlo) (by simpa using hhi)
+  have h := parseInt10_showInt 64 i (by simpa using hlo) (by simpa using hhi)
   simp [parsePrim, showInt_ne_nil, h, optPR]
 
 theorem parsePrim_int32_showInt (i : Int) (hlo : -(2 ^ 31 : Int) ≤ i) (hhi : i < (2 ^ 31 : Int)) :
     parsePrim .int32 (showInt i) = .val (.int32 i) := by
-  have h := parseInt0_showInt 32 i (by simpa using hlo) (by simpa using hhi)
+  have h := parseInt10_showInt 32 i (by simpa using hlo) (by simpa using hhi)
   simp [parsePrim, showInt_ne_nil, h, optPR]
 
 /-- the same for the specification's base-ten reader -/
@@ -54,7 +54,7 @@ theorem parsePrim_int32_only (t : PT) (s : Str) (i : Int) (h : parsePrim t s = .
   split at h
   · cases h
   · cases t <;> simp only [optPR] at h
-    · cases hp : parseInt0 64 s <;> simp [hp] at h
+    · cases hp : parseInt10 64 s <;> simp [hp] at h
     · rfl
     · cases hp : parseDec s <;> simp [hp] at h
     · cases hp : parseBoolText s <;> simp [hp] at h
@@ -62,49 +62,18 @@ theorem parsePrim_int32_only (t : PT) (s : Str) (i : Int) (h : parsePrim t s = .
 
 /-! ### code vs specification on one primitive text -/
 
-/-- Outside the class `nonDecimalIntText` the code's primitive parser is the specification's.
-(full statement `∀ t s, parsePrim t s = specPrim t s` is false: `parsePrim_ne_specPrim_witness`) -/
-theorem parsePrim_eq_specPrim_partial (t : PT) (s : Str) (h : nonDecimalIntText s = false) :
-    parsePrim t s = specPrim t s := by
-  have key : ∀ bits, parseInt0 bits s = readDecInt bits s := by
-    intro bits
-    match s, h with
-    | [], _ => rfl
-    | '+' :: r, h =>
-      have : parseUint0 r = readNat r := parseUint0_eq_readNat r (by
-        intro c cs e; subst e; simp [nonDecimalIntText] at h)
-      simp [parseInt0, readDecInt, this]
-    | '-' :: r, h =>
-      have : parseUint0 r = readNat r := parseUint0_eq_readNat r (by
-        intro c cs e; subst e; simp [nonDecimalIntText] at h)
-      simp [parseInt0, readDecInt, this]
-    | c :: r, h =>
-      by_cases h1 : c = '+'
-      · subst h1
-        have : parseUint0 r = readNat r := parseUint0_eq_readNat r (by
-          intro c cs e; subst e; simp [nonDecimalIntText] at h)
-        simp [parseInt0, readDecInt, this]
-      · by_cases h2 : c = '-'
-        · subst h2
-          have : parseUint0 r = readNat r := parseUint0_eq_readNat r (by
-            intro c cs e; subst e; simp [nonDecimalIntText] at h)
-          simp [parseInt0, readDecInt, this]
-        · have : parseUint0 (c :: r) = readNat (c :: r) := parseUint0_eq_readNat _ (by
-            intro c' cs e
-            have e1 : c = '0' := by injection e
-            subst e1
-            have e2 : r = c' :: cs := by injection e
-            subst e2
-            simp [nonDecimalIntText] at h)
-          rw [parseInt0_unsigned bits c r h1 h2, readDecInt_unsigned bits c r h1 h2, this]
+/-- The code's primitive parser is the specification's, on every text and for every type (full strength since the
+repair of finding F-C05-3: `strconv.ParseInt(raw, 10, …)`; before, base 0 read "010" as 8 and "0x1F" as 31). -/
+theorem parsePrim_eq_specPrim (t : PT) (s : Str) : parsePrim t s = specPrim t s := by
   unfold parsePrim specPrim
-  cases t <;> simp [key]
+  cases t <;> simp [parseInt10_eq_readDecInt]
 
-/-- witness (finding NonDecimalInt): "010" is eight for the code, ten for the specification -/
-theorem parsePrim_ne_specPrim_witness :
-    nonDecimalIntText "010".toList = true ∧
-    parsePrim .integer "010".toList = .val (.int 8) ∧ specPrim .integer "010".toList = .val (.int 10) ∧
-    parsePrim .integer "0x1F".toList = .val (.int 31) ∧ specPrim .integer "0x1F".toList = .err := by
+/-- regression (former witness of F-C05-3): non-decimal spellings are decimal or parse errors now -/
+theorem parsePrim_nondecimal_regression :
+    parsePrim .integer "010".toList = .val (.int 10) ∧ parsePrim .integer "0x1F".toList = .err ∧
+    parsePrim .integer "0b11".toList = .err ∧ parsePrim .integer "0o17".toList = .err ∧
+    parsePrim .integer "1_0".toList = .err ∧ parsePrim .int32 "+5".toList = .val (.int32 5) ∧
+    parsePrim .integer "-0".toList = .val (.int 0) ∧ parsePrim .integer "-".toList = .err := by
   decide
 
 /-! ### the decision of ValidateParameter -/
@@ -536,6 +505,172 @@ theorem header_int_array_end_to_end (name : Str) (ex req : Bool) (mn mx : Option
   | nil => contradiction
   | cons i rest => simp [arrOut]
 
+/-- query, form, explode=false: "p=a,1,b,x" (`found` is the decoder's own computation over the decoded pairs) -/
+theorem query_object_roundtrip (fl : Flavour) (name : Str) (req : Bool)
+    (sprops : List (Str × PS)) (rq : List Str) (addl : Option PS)
+    (kvs : List (Str × Str)) (henc : encodable ⟨.query, .form, false⟩ name (.obj kvs) = true) :
+    ∃ r, encode ⟨.query, .form, false⟩ name (.obj kvs) = some r ∧
+      decodeStyled fl ⟨.query, .form, false⟩ name req r (.leaf (.obj sprops rq addl)) =
+        match makeObject fl.prim fl.addlShadow kvs sprops addl with
+        | none => ⟨.nilObj, false, some .parse⟩
+        | some res => ⟨.obj res, queryObjFound sprops kvs res, none⟩ := by
+  have hne : kvs ≠ [] := by
+    intro e; subst e; simp [encodable, encodableObj] at henc
+  have hfree : ∀ kv ∈ kvs, ',' ∉ kv.1 ∧ ',' ∉ kv.2 := by
+    intro kv hkv
+    simp [encodable, encodableObj, objDelims, List.all_eq_true, freeOf] at henc
+    have := henc.2 kv.1 kv.2 hkv
+    exact ⟨this.1.1.1, this.1.1.2⟩
+  refine ⟨{ query := [(name, [joinL [','] (flatKV kvs)])] }, by simp [encode, encQuery], ?_⟩
+  simp [decodeStyled, earlyAbsent, decodeValue, decodeLeaf, queryObj, qLookup, propsFromString_flat kvs hne hfree]
+  rfl
+
+/-- query, deepObject: `p[a]=1&p[b]=x` — every key is read back as its single segment, no clash error can arise,
+and the declared properties are then built from exactly the pairs that were encoded -/
+theorem deep_object_roundtrip (fl : Flavour) (name : Str) (req : Bool) (hn : '[' ∉ name)
+    (sprops : List (Str × PS)) (rq : List Str)
+    (kvs : List (Str × Str)) (henc : encodable ⟨.query, .deepObject, true⟩ name (.obj kvs) = true) :
+    ∃ r, encode ⟨.query, .deepObject, true⟩ name (.obj kvs) = some r ∧
+      decodeStyled fl ⟨.query, .deepObject, true⟩ name req r (.leaf (.obj sprops rq none)) =
+        match buildDeep fl.prim (deepPairs kvs) (sprops.map (fun kv => (kv.1, DS.prim kv.2))) with
+        | none => ⟨.nilObj, false, some .parse⟩
+        | some res => ⟨.obj (dvPrims res), deepFound (sprops.map (fun kv => (kv.1, DS.prim kv.2))) (deepPairs kvs) res, none⟩ := by
+  have hne : kvs ≠ [] := by
+    intro e; subst e; simp [encodable, encodableObj] at henc
+  have hk : ∀ kv ∈ kvs, ']' ∉ kv.1 := by
+    intro kv hkv
+    simp [encodable, encodableObj, objDelims, List.all_eq_true, freeOf] at henc
+    exact (henc.2 kv.1 kv.2 hkv).2
+  refine ⟨{ query := deepEnc name kvs }, by simp [encode, encQuery, deepEnc], ?_⟩
+  have hdp := deepProps_enc name hn kvs hk
+  obtain ⟨kv0, rest, rfl⟩ : ∃ kv0 rest, kvs = kv0 :: rest := by
+    cases kvs with
+    | nil => contradiction
+    | cons a b => exact ⟨a, b, rfl⟩
+  have hq : (deepEnc name (kv0 :: rest)).isEmpty = false := by simp [deepEnc]
+  have hcl := deepClash_pairs (kv0 :: rest)
+  simp only [decodeStyled, earlyAbsent, hq, decodeValue, decodeLeaf, queryDeepFlat, queryDeep, hdp]
+  simp only [deepPairs, List.map_cons] at hcl ⊢
+  simp only [hcl]
+  cases hb : buildDeep fl.prim (([kv0.1], [kv0.2]) :: List.map (fun kv => ([kv.1], [kv.2])) rest)
+      (sprops.map (fun kv => (kv.1, DS.prim kv.2))) <;> simp
+
+/-- … and that builder is the flat-object builder of every other cell (`makeObject`, so `makeObject_lookup` gives the
+value of each declared property): deepObject decodes a flat object exactly like form / simple / label / matrix do -/
+theorem deep_object_roundtrip_makeObject (fl : Flavour) (name : Str) (req : Bool) (hn : '[' ∉ name)
+    (sprops : List (Str × PS)) (rq : List Str)
+    (kvs : List (Str × Str)) (henc : encodable ⟨.query, .deepObject, true⟩ name (.obj kvs) = true) :
+    ∃ r, encode ⟨.query, .deepObject, true⟩ name (.obj kvs) = some r ∧
+      decodeStyled fl ⟨.query, .deepObject, true⟩ name req r (.leaf (.obj sprops rq none)) =
+        match makeObject fl.prim fl.addlShadow kvs sprops none with
+        | none => ⟨.nilObj, false, some .parse⟩
+        | some res => ⟨.obj res, deepFound (sprops.map (fun kv => (kv.1, DS.prim kv.2))) (deepPairs kvs) (liftP res), none⟩ := by
+  have hd : distinctKeys kvs = true := by
+    simp [encodable, encodableObj] at henc
+    exact henc.1.1.2
+  obtain ⟨r, h1, h2⟩ := deep_object_roundtrip fl name req hn sprops rq kvs henc
+  refine ⟨r, h1, ?_⟩
+  rw [h2, buildDeep_flat fl.prim kvs hd sprops]
+  cases hb : buildProps fl.prim kvs sprops <;> simp [makeObject, hb, dvPrims_liftP]
+
+/-! ### decodeValue's composition loops -/
+
+/-- anyOf: when no alternative decodes to a value the result is nil; it is an error exactly for a required parameter -/
+theorem decAnyOf_none (f : Leaf → Out) (req : Bool) :
+    ∀ (ls : List Leaf) (fnd : Bool), (∀ l ∈ ls, (f l).val.isNil = true) →
+      decAnyOf f req ls fnd = ⟨.nil, fnd || ls.any (fun l => (f l).found), if req then some .other else none⟩
+  | [], fnd, _ => by simp [decAnyOf]
+  | l :: rest, fnd, h => by
+    have h1 : (f l).val.isNil = true := h l (by simp)
+    have ih := decAnyOf_none f req rest (fnd || (f l).found) (fun x hx => h x (by simp [hx]))
+    simp [decAnyOf, h1, ih, Bool.or_assoc]
+
+/-- anyOf: the first alternative that decodes to a value wins; its error (and every earlier one) is dropped -/
+theorem decAnyOf_first (f : Leaf → Out) (req : Bool) (l : Leaf) (post : List Leaf) (hl : (f l).val.isNil = false) :
+    ∀ (pre : List Leaf) (fnd : Bool), (∀ x ∈ pre, (f x).val.isNil = true) →
+      decAnyOf f req (pre ++ l :: post) fnd = ⟨(f l).val, fnd || pre.any (fun x => (f x).found) || (f l).found, none⟩
+  | [], fnd, _ => by simp [decAnyOf, hl]
+  | x :: pre, fnd, h => by
+    have h1 : (f x).val.isNil = true := h x (by simp)
+    have ih := decAnyOf_first f req l post hl pre (fnd || (f x).found) (fun y hy => h y (by simp [hy]))
+    simp [decAnyOf, h1, ih, Bool.or_assoc]
+
+/-- oneOf: `found` accumulates over all alternatives; the value is the last non-nil one (or the carried one) -/
+theorem decOneOf_found (f : Leaf → Out) (req : Bool) :
+    ∀ (ls : List Leaf) (fnd : Bool) (cur : Option Val),
+      (decOneOf f req ls fnd cur).found = (fnd || ls.any (fun l => (f l).found))
+  | [], fnd, some v => by simp [decOneOf]
+  | [], fnd, none => by simp [decOneOf]
+  | l :: rest, fnd, cur => by
+    simp [decOneOf, decOneOf_found f req rest, Bool.or_assoc]
+
+theorem decOneOf_last (f : Leaf → Out) (req : Bool) (l : Leaf) (hl : (f l).val.isNil = false) :
+    ∀ (post : List Leaf), (∀ x ∈ post, (f x).val.isNil = true) → ∀ (pre : List Leaf) (fnd : Bool) (cur : Option Val),
+      (decOneOf f req (pre ++ l :: post) fnd cur).val = (f l).val ∧ (decOneOf f req (pre ++ l :: post) fnd cur).err = none := by
+  intro post hpost
+  have tail : ∀ (post : List Leaf), (∀ x ∈ post, (f x).val.isNil = true) → ∀ (fnd : Bool) (v : Val),
+      (decOneOf f req post fnd (some v)).val = v ∧ (decOneOf f req post fnd (some v)).err = none := by
+    intro post
+    induction post with
+    | nil => intro _ fnd v; simp [decOneOf]
+    | cons x xs ih =>
+      intro h fnd v
+      have hx : (f x).val.isNil = true := h x (by simp)
+      simpa [decOneOf, hx] using ih (fun y hy => h y (by simp [hy])) (fnd || (f x).found) v
+  intro pre
+  induction pre with
+  | nil => intro fnd cur; simpa [decOneOf, hl] using tail post hpost (fnd || (f l).found) (f l).val
+  | cons x xs ih => intro fnd cur; simpa [decOneOf] using ih (fnd || (f x).found) _
+
+/-- oneOf with no decodable alternative: nil, an error exactly for a required parameter -/
+theorem decOneOf_none (f : Leaf → Out) (req : Bool) :
+    ∀ (ls : List Leaf) (fnd : Bool), (∀ l ∈ ls, (f l).val.isNil = true) →
+      decOneOf f req ls fnd none = ⟨.nil, fnd || ls.any (fun l => (f l).found), if req then some .other else none⟩
+  | [], fnd, _ => by simp [decOneOf]
+  | l :: rest, fnd, h => by
+    have h1 : (f l).val.isNil = true := h l (by simp)
+    have ih := decOneOf_none f req rest (fnd || (f l).found) (fun x hx => h x (by simp [hx]))
+    simp [decOneOf, h1, ih, Bool.or_assoc]
+
+/-- allOf: the loop stops at the first alternative that is nil or fails and returns that result -/
+theorem decAllOf_stop (f : Leaf → Out) (l : Leaf) (post : List Leaf) (hl : (f l).val.isNil = true ∨ (f l).err.isSome = true) :
+    ∀ (pre : List Leaf) (fnd : Bool) (last : Out), (∀ x ∈ pre, (f x).val.isNil = false ∧ (f x).err = none) →
+      decAllOf f (pre ++ l :: post) fnd last = ⟨(f l).val, fnd || pre.any (fun x => (f x).found) || (f l).found, (f l).err⟩
+  | [], fnd, last, _ => by
+    rcases hl with h | h <;> simp [decAllOf, h]
+  | x :: pre, fnd, last, h => by
+    have hx := h x (by simp)
+    have ih := decAllOf_stop f l post hl pre (fnd || (f x).found) ⟨(f x).val, fnd || (f x).found, (f x).err⟩
+      (fun y hy => h y (by simp [hy]))
+    rw [hx.2] at ih
+    simpa [decAllOf, hx.1, hx.2, Bool.or_assoc] using ih
+
+/-- allOf: when every alternative decodes to a value the last one's value is returned -/
+theorem decAllOf_all (f : Leaf → Out) (l : Leaf) (hl : (f l).val.isNil = false ∧ (f l).err = none) :
+    ∀ (pre : List Leaf) (fnd : Bool) (last : Out), (∀ x ∈ pre, (f x).val.isNil = false ∧ (f x).err = none) →
+      decAllOf f (pre ++ [l]) fnd last = ⟨(f l).val, fnd || pre.any (fun x => (f x).found) || (f l).found, none⟩
+  | [], fnd, last, _ => by simp [decAllOf, hl.1, hl.2]
+  | x :: pre, fnd, last, h => by
+    have hx := h x (by simp)
+    have ih := decAllOf_all f l hl pre (fnd || (f x).found) ⟨(f x).val, fnd || (f x).found, (f x).err⟩
+      (fun y hy => h y (by simp [hy]))
+    rw [hx.2] at ih
+    simpa [decAllOf, hx.1, hx.2, Bool.or_assoc] using ih
+
+/-- a composition with one alternative decodes like that alternative whenever it yields a value without error:
+every leaf round trip above lifts to `allOf: [l]`, `anyOf: [l]`, `oneOf: [l]` -/
+theorem decodeValue_singleton (fl : Flavour) (c : Cell) (name : Str) (req : Bool) (r : Req) (l : Leaf)
+    (h : (decodeLeaf fl c name r l).val.isNil = false ∧ (decodeLeaf fl c name r l).err = none) :
+    decodeValue fl c name req r (.allOf [l]) = decodeLeaf fl c name r l ∧
+    decodeValue fl c name req r (.anyOf [l]) = decodeLeaf fl c name r l ∧
+    decodeValue fl c name req r (.oneOf [l]) = decodeLeaf fl c name r l := by
+  obtain ⟨h1, h2⟩ := h
+  cases ho : decodeLeaf fl c name r l with
+  | mk v fd e =>
+    simp only [ho] at h1 h2
+    subst h2
+    simp [decodeValue, decAllOf, decAnyOf, decOneOf, ho, h1]
+
 /-! ### where the code and the specification part (exclusion classes), and that they part nowhere else -/
 
 /-- #42 at its root. Full statement `visitPS enumHitImpl ps v = visitPS enumHitSpec ps v` is false for an int32
@@ -595,12 +730,12 @@ theorem enum_gotype_witness :
     EnumGoType p2 = true ∧ validateParameter p2 r2 = .schema ∧ validateSpec p2 r2 = .accept := by
   decide
 
-/-- NonDecimalInt: ?id=010 is accepted as 8 where `maximum: 9` — the specification reads 10 and rejects -/
-theorem nondecimal_int_witness :
+/-- regression (former witness of F-C05-3): ?id=010 against `maximum: 9` is ten and is rejected by both sides -/
+theorem nondecimal_int_regression :
     let p : Param := ⟨⟨.query, .form, true⟩, "id".toList, false, false, .leaf (.prim { t := .integer, max := some 9 })⟩
     let r : Req := { query := [("id".toList, ["010".toList])] }
-    validateParameter p r = .accept ∧ validateSpec p r = .schema ∧
-    (decodeStyled impl p.cell p.name false r p.schema).val = .prim (.int 8) := by
+    validateParameter p r = .schema ∧ validateSpec p r = .schema ∧
+    (decodeStyled impl p.cell p.name false r p.schema).val = .prim (.int 10) := by
   decide
 
 /-- AddlShadow: header `p: n,1.5` with properties {n: number}, additionalProperties {integer} -/
